@@ -621,13 +621,13 @@ func genPrimAead(r *rand.Rand, n int) []string {
 			}
 		}
 		if i%40 == 3 { // AES-CCM-16-*: plaintext / ciphertext lengths around the 2^16 limit
-			alg = []int{10, 11, 30, 31}[r.Intn(4)]
+			alg = []int{10, 11, 30, 31}[(i/40)%4] // in turn, not drawn
 			k, nonce = randBytes(r, keySizeOf(alg)), randBytes(r, 13)
-			pt = randBytes(r, []int{65519, 65520, 65527, 65528, 65534, 65535, 65536, 65537, 100000}[r.Intn(9)])
+			pt = randBytes(r, []int{65536, 65535, 65537, 65519, 100000, 65520, 65527, 65528, 65534}[(i/40)%9])
 			aad = randBytes(r, r.Intn(20))
 		}
 		if i%40 == 23 { // AAD lengths around 0xff00, where the RFC 3610 length prefix changes form
-			aad = randBytes(r, []int{65279, 65280, 65281, 66000}[r.Intn(4)])
+			aad = randBytes(r, []int{65280, 65279, 65281, 66000, 65291, 65293, 69995, 65535, 65536}[(i/40)%9]) // incl. lengths 11..14 mod 16 in the long form
 			pt = randBytes(r, r.Intn(40))
 		}
 		out = append(out, fmt.Sprintf("prim.aead.enc %d %s %s %s %s", alg, hx(k), hx(nonce), hx(pt), hx(aad)))
